@@ -742,8 +742,19 @@ func (fc *FuncCtx) bitop(op string, a, b *Term, width int) *Term {
 				return Mod(a, IntLitS(new(big.Int).Lsh(big.NewInt(1), uint(k)).String()))
 			}
 			if n.Sign() > 0 && new(big.Int).And(n, new(big.Int).Sub(n, big.NewInt(1))).Sign() == 0 {
-				// single bit 2^k
-				return Mul(Mod(Div(a, IntLitS(n.String())), IntLit(2)), IntLitS(n.String()))
+				// single bit 2^k ; the bit of an 8-bit and/or/xor is the min/max/difference of the operands' bits
+				bitOf := func(x *Term) *Term { return Mod(Div(x, IntLitS(n.String())), IntLit(2)) }
+				if len(a.Args) == 2 && n.Cmp(big.NewInt(256)) < 0 {
+					switch a.Op {
+					case "and8":
+						return Mul(mk("bmin", SInt, bitOf(a.Args[0]), bitOf(a.Args[1])), IntLitS(n.String()))
+					case "or8":
+						return Mul(mk("bmax", SInt, bitOf(a.Args[0]), bitOf(a.Args[1])), IntLitS(n.String()))
+					case "xor8":
+						return Mul(mk("bx", SInt, bitOf(a.Args[0]), bitOf(a.Args[1])), IntLitS(n.String()))
+					}
+				}
+				return Mul(bitOf(a), IntLitS(n.String()))
 			}
 		}
 		if n, ok := litInt(a); ok {
